@@ -24,7 +24,7 @@ Inductive guard :=
 | GNotInBuild     (* device / Geant4 / ROOT / VecGeom code that this build does not compile or cannot reach *)
 | GConstruction   (* const_cast used to build a reference/copy of per-stream data while it is constructed *)
 | GDebugUnguarded (* NOT guarded; test/debug-only tool that production front ends never attach *)
-| GRacyReported   (* NOT properly guarded: reported finding (NOTES.md); change to GMutex once repaired *).
+| GRacyReported   (* NOT properly guarded: reported finding awaiting repair (none at present) *).
 
 Definition row := (string * string * guard * string)%type.
 
@@ -69,8 +69,8 @@ Definition guard_table : list row :=
     ("celeritas/user/ActionDiagnostic.cc", "initialize_mutex", GMutex, "guards the lazy construction of store_ in begin_run_impl");
     ("celeritas/user/ActionDiagnostic.cc", "ActionDiagnostic::action_reg_", GMutex, "assigned under initialize_mutex, once");
     ("celeritas/user/ActionDiagnostic.cc", "ActionDiagnostic::particle_", GMutex, "assigned under initialize_mutex, once");
-    ("celeritas/user/ActionDiagnostic.cc", "ActionDiagnostic::store_", GRacyReported,
-     "assigned under initialize_mutex, once, BUT the first `if (!store_)` is outside the lock (double-checked locking on a non-atomic object): ThreadSanitizer reports it, finding F-C07-1 in NOTES.md");
+    ("celeritas/user/ActionDiagnostic.cc", "ActionDiagnostic::store_", GMutex,
+     "tested and assigned under initialize_mutex, once (since repair 63841d1 the lock is taken BEFORE the first test; the former double-checked locking was finding F-C07-1)");
     ("celeritas/user/ActionDiagnostic.hh", "store_", GPerStream,
      "StreamStore: step() creates/accesses only the element of its own StreamId");
     ("celeritas/user/StepDiagnostic.hh", "store_", GPerStream,
